@@ -487,6 +487,39 @@ def native_replay(h, test_src, env):
 
 # --------------------------------------------------------------------------- main
 
+def run_verus(prop):
+    """C12: second, independent solver.  Returns dict(status=ok|violation|undecided, ...)."""
+    vdir = os.path.join(CACHE, "verus")
+    os.makedirs(vdir, exist_ok=True)
+    gen = os.path.join(vdir, "bits_gen.rs")
+    t0 = time.time()
+    ex = subprocess.run([sys.executable, os.path.join(VERIF, "verus", "extract.py"), REPO, gen], capture_output=True, text=True)
+    if ex.returncode != 0:
+        return {"status": "undecided", "why": "verus extraction failed (lost anchor): " + (ex.stderr or ex.stdout)[-400:]}
+    try:
+        p = subprocess.run(["verus", gen, "--output-json", "--time"], cwd=vdir, capture_output=True, text=True, timeout=900)
+    except subprocess.TimeoutExpired:
+        return {"status": "undecided", "why": "verus timed out"}
+    out = p.stdout
+    try:
+        j = json.loads(out[out.index("{"):])
+    except Exception:
+        return {"status": "undecided", "why": "cannot parse verus output: " + (p.stderr or out)[-600:]}
+    vr = j.get("verification-results", {})
+    res = {"status": "ok", "verified": vr.get("verified", 0), "errors": vr.get("errors", 0), "extraction": ex.stdout.strip(),
+           "cmd": "python3 verus/extract.py %s %s && verus %s --output-json --time" % (REPO, gen, gen),
+           "wall_s": round(time.time() - t0, 1), "smt_time_ms": (j.get("times-ms", {}) or {}).get("smt", {}),
+           "lemmas": sorted(k.split("::")[-1] for k in (j.get("func-details") or {}).keys() if "lemma_" in k or "fact_" in k)}
+    if vr.get("encountered-vir-error") or (not vr.get("success") and not vr.get("errors")):
+        res.update(status="undecided", why="verus rejected the extracted text: " + p.stderr[-800:])
+    elif vr.get("errors", 0) > 0:
+        failed = sorted(set(re.findall(r"(?:lemma|fact)_\w+", p.stderr)))
+        res.update(status="violation", failed=failed, stderr=p.stderr[-3000:])
+    elif vr.get("verified", 0) < 20:
+        res.update(status="undecided", why="verus verified only %s items (vacuity guard)" % vr.get("verified"))
+    return res
+
+
 def warm():
     """setup_cmd: build the Kani dependency caches by running one cheap harness per crate."""
     rc = 0
@@ -568,7 +601,7 @@ def main(argv):
                 groups.setdefault((h2.crate, h2.features), []).append(h2)
                 extra.append(h2)
         mine = mine + extra
-    per_harness_timeout = int(os.environ.get("VERIF_HARNESS_TIMEOUT", "300" if tier == "quick" else "1500"))
+    per_harness_timeout = int(os.environ.get("VERIF_HARNESS_TIMEOUT", "900" if tier == "quick" else "3600"))
     for (crate, feats), hs in sorted(groups.items(), key=lambda kv: (kv[0][0], kv[0][1] or "")):
         filters = sorted({h.name for h in hs})
         tag = "%s-%s-%s%s" % (prop, tier, crate, ("-" + feats.replace(",", "_")) if feats else "")
@@ -673,13 +706,28 @@ def main(argv):
         else:
             r["verdict"] = "known-finding"
 
+    verus = None
+    if prop == "C12" and not a.only:
+        verus = run_verus(prop)
+        log("[C12] verus cross-check: %s (%s verified, %s errors)" % (verus.get("status"), verus.get("verified"), verus.get("errors")))
+        if verus["status"] == "undecided":
+            undecided.append("verus cross-check: " + verus.get("why", ""))
     return finish(prop, tier, seed, t0, mine, results, undecided, violations, known_hits, hosts, assumptions,
-                  all_contracts, runs, no_playback=a.no_playback)
+                  all_contracts, runs, no_playback=a.no_playback, verus=verus)
 
 
 def finish(prop, tier, seed, t0, mine, results, undecided, violations, known_hits, hosts, assumptions,
-           all_contracts, runs=(), no_playback=False):
+           all_contracts, runs=(), no_playback=False, verus=None):
     viol_lines = []
+    if verus and verus.get("status") == "violation":
+        rdir = os.path.join(VERIF, "replays", prop)
+        os.makedirs(rdir, exist_ok=True)
+        path = os.path.join(rdir, "verus_bits.json")
+        json.dump({"property": prop, "back_end": "verus / z3 (bit_vector)", "failed_obligations": verus.get("failed"),
+                   "verifier_output": verus.get("stderr"), "note": "Verus gives no counterexample; see the Kani obligations c12_bits_* for a replayable input"},
+                  open(path, "w"), indent=1)
+        viol_lines.append("VIOLATION property=%s replay=%s no-failing-input-found" % (prop, path))
+        log("  failed verus obligation(s): %s" % verus.get("failed"))
     for (h, r, bad) in violations:
         if no_playback:
             path, replayed = os.path.join(VERIF, "replays", prop, h.name + ".json"), False
@@ -761,6 +809,7 @@ def finish(prop, tier, seed, t0, mine, results, undecided, violations, known_hit
                         "stand-in obligations (bounds listed, never counted as proved). The check decides the listed kernel "
                         "functions only, not the property's whole-program quantifier." % (proof_dis, b_dis)),
         "undecided": undecided,
+        "second_solver_verus": verus,
         "known_findings_hit": known_hits,
         "hooks": {os.path.relpath(k, VERIF): (os.path.relpath(v, REPO) if v else "external harness crate (public API, no hook)")
                   for k, v in hosts.items()},
